@@ -83,7 +83,7 @@ let rec unit_ops (u : (M.n list * (M.n list * M.n list) list) list) (errs : int)
          (match M.unquote_value (to_str v) with Some _ -> unit_ops (M.set_entry u (to_str s) (to_str k) (to_str v)) errs r | None -> unit_ops u (errs + 1) r)
      | "prepend", s :: k :: v :: r -> unit_ops (M.unit_prepend u (to_str s) (to_str k) (to_str v)) errs r
      | "rename", a :: b :: r -> unit_ops (M.rename_section u (to_str a) (to_str b)) errs r
-     | "merge", t :: r -> (match parse_text t with M.Ok o -> unit_ops (M.merge_from u o) errs r | _ -> unit_ops u (errs + 1) r)
+     | "merge", t :: r -> (match parse_text t with Some o -> unit_ops (M.merge_from u o) errs r | None -> unit_ops u (errs + 1) r)
      | _ -> failwith "bad unit op")
 
 let run (op : string) (f : string list) : string =
@@ -95,16 +95,16 @@ let run (op : string) (f : string list) : string =
   | "template_parts", [p] ->
       let o = function Some v -> "S" ^ of_str v | None -> "N" in
       let (a, b) = M.template_parts (to_str p) in ok [o a; o b]
-  | "parse", [t] -> (match parse_text t with M.Ok u -> ok (dump_unit u) | M.Err -> "ERR\tUnit" | M.OutOfFuel -> "MODELFAIL\t" ^ hex "fuel")
+  | "parse", [t] -> (match parse_text t with Some u -> ok (dump_unit u) | None -> "ERR\tUnit")
   | "render", [t] -> (match parse_text t with
-      | M.Ok u -> ok [of_str (M.to_string u); of_str (List.concat (M.write_calls u))]
-      | M.Err -> "ERR\tUnit" | M.OutOfFuel -> "MODELFAIL\t" ^ hex "fuel")
+      | Some u -> ok [of_str (M.to_string u); of_str (List.concat (M.write_calls u))]
+      | None -> "ERR\tUnit")
   | "unit_ops", ops ->
       let (u, errs) = unit_ops [] 0 ops in
       ok (string_of_int errs :: dump_unit u @ [of_str (M.to_string u)])
   | "lookup", [t; sec; key; kind] ->
       (match parse_text t with
-       | M.Ok u ->
+       | Some u ->
          let sec = to_str sec and key = to_str key in
          (match bare kind with
           | "last" -> (match M.lookup_last u sec key with Some (M.POk v) -> ok ["SOME"; of_str v] | Some M.PPanic -> "PANIC" | None -> ok ["NONE"])
@@ -120,7 +120,7 @@ let run (op : string) (f : string list) : string =
               ok (List.concat_map (fun (k, v) -> [hex k; hex v]) kv)
           | "has_key" -> ok [tf (M.has_key u sec key)]
           | _ -> failwith "bad lookup kind")
-       | M.Err -> "ERR\tUnit" | M.OutOfFuel -> "MODELFAIL\t" ^ hex "fuel")
+       | None -> "ERR\tUnit")
   | "parse_bool", [s] ->
       (match M.unquote_value (to_str s) with
        | None -> "ERR"
